@@ -682,6 +682,10 @@ def c12_r5(ctx, f):
         # components pushed in a loop / through another idiom: which component goes where is not recognised
         ctx.abstain(rid, "colour components are not pushed as four separate format!() of color[k]: %s" % names, where_fn(fn))
         return
+    if len([n_ for n_ in names if n_.startswith("hex")]) < 3:
+        # fewer than three component pushes recognised: the components are emitted through another idiom (a loop, write!)
+        ctx.abstain(rid, "colour components are not pushed as separate format!() pieces: %s" % names, where_fn(fn))
+        return
     ctx.check(rid, names == ["#", "hex0", "hex1", "hex2", "hex3"], fn.path + "/sequence", where_fn(fn), fn.path, "pushed pieces",
               "the colour string is not '#' followed by the components 0,1,2,(3), each as two zero-padded lower-case hex digits",
               expected=["#", "hex0", "hex1", "hex2", "hex3"], found=names, sample=" ".join(names))
